@@ -282,11 +282,12 @@ class ActorHarness:
         self._tasks.append(self.sim.spawn(rd()))
         await self.sub_tx.send(rr)
 
-    def publish_bounds(self, g: int, sb: dict[str, Any]) -> None:
+    def publish_bounds(self, g: int, sb: dict[str, Any], *, stamp_back_us: int = 0) -> None:
         self.published.append({"ev": self.sim.evno, "t": self.sim.now_us, "g": g, "sb": sb})
         self.sim.ev("bounds", g, repr(sorted(sb.items())))
         self.sim.note(f"bounds group {g}: incl [{sb['lo']},{sb['hi']}] excl ({sb['xlo']},{sb['xhi']})")
-        self.sim.spawn(self.bounds_tx[self.groups[g]].send(mk_sysbounds(sb, self.sim.wall())))
+        ts = self.sim.wall() - timedelta(microseconds=stamp_back_us)
+        self.sim.spawn(self.bounds_tx[self.groups[g]].send(mk_sysbounds(sb, ts)))
 
     def propose(self, g: int, p: dict[str, Any]) -> None:
         self.sim.ev("proposal", g, p["actor"], p["pref"], p["lower"], p["upper"])
